@@ -147,6 +147,8 @@ def run(prop, tier, seed, replay=None):
                 show["concrete"] = hrefcases.concrete(show["name"])
             rep.violation("%s case=%s" % (v["dev"], json.dumps(show, ensure_ascii=False)[:400]),
                           {"property": prop, "verdict": v, "case": show})
+    from . import readoverlap, reportrace
+    readoverlap.check(rep, list(reportrace.PF_PAIRS))
     rep.coverage.update({
         "evaluations": sum(len(n["ctx"]) for n in names) + sum(len(c["checks"]) for c in cfgs),
         "distinct_nontrivial": len({(tuple(n["name"]), n["frontend"], n["prefix"]) for n in names
